@@ -16,6 +16,7 @@ package main
 
 import (
 	"fmt"
+	"reflect"
 	"go/ast"
 	"go/token"
 	"go/types"
@@ -69,6 +70,31 @@ func (in *inliner) pure(e ast.Expr) bool {
 			}
 		case *ast.UnaryExpr:
 			if x.Op == token.ARROW || x.Op == token.AND {
+				ok = false
+			}
+		}
+		return true
+	})
+	return ok
+}
+
+// noCalls: no function calls other than len/cap/conversions (index and slice expressions allowed).
+func (in *inliner) noCalls(e ast.Expr) bool {
+	ok := true
+	ast.Inspect(e, func(n ast.Node) bool {
+		switch x := n.(type) {
+		case *ast.CallExpr:
+			if tv, has := in.pkg.TypesInfo.Types[x.Fun]; has && tv.IsType() {
+				return true
+			}
+			if id, isId := x.Fun.(*ast.Ident); isId {
+				if b, isB := in.pkg.TypesInfo.Uses[id].(*types.Builtin); isB && (b.Name() == "len" || b.Name() == "cap") {
+					return true
+				}
+			}
+			ok = false
+		case *ast.FuncLit, *ast.UnaryExpr:
+			if u, isU := x.(*ast.UnaryExpr); !isU || u.Op == token.ARROW {
 				ok = false
 			}
 		}
@@ -205,13 +231,22 @@ func (in *inliner) expandFile(f *ast.File) bool {
 				if call, ok := s.X.(*ast.CallExpr); ok && len(call.Args) == 1 {
 					if id, ok := call.Fun.(*ast.Ident); ok {
 						if b, isB := in.pkg.TypesInfo.Uses[id].(*types.Builtin); isB && b.Name() == "clear" {
-							if sl, isSl := in.pkg.TypesInfo.TypeOf(call.Args[0]).Underlying().(*types.Slice); isSl && in.pure(call.Args[0]) {
+							if sl, isSl := in.pkg.TypesInfo.TypeOf(call.Args[0]).Underlying().(*types.Slice); isSl && (in.pure(call.Args[0]) || in.noCalls(call.Args[0])) {
 								if z := in.zeroOf(sl.Elem(), f); z != nil {
 									*in.serial++
 									iv := fmt.Sprintf("i_x%d", *in.serial)
-									loop := &ast.RangeStmt{Key: ast.NewIdent(iv), Tok: token.DEFINE, X: call.Args[0],
+									target := call.Args[0]
+									if !in.pure(target) {
+										// the operand is evaluated once, here: bind it first (clear(b[i:]))
+										sv := fmt.Sprintf("s_x%d", *in.serial)
+										bind := []ast.Stmt{&ast.AssignStmt{Lhs: []ast.Expr{ast.NewIdent(sv)}, Tok: token.DEFINE, Rhs: []ast.Expr{target}}}
+										clearPos(bind)
+										out = append(out, bind...)
+										target = ast.NewIdent(sv)
+									}
+									loop := &ast.RangeStmt{Key: ast.NewIdent(iv), Tok: token.DEFINE, X: target,
 										Body: &ast.BlockStmt{List: []ast.Stmt{&ast.AssignStmt{
-											Lhs: []ast.Expr{&ast.IndexExpr{X: call.Args[0], Index: ast.NewIdent(iv)}}, Tok: token.ASSIGN, Rhs: []ast.Expr{z}}}}}
+											Lhs: []ast.Expr{&ast.IndexExpr{X: target, Index: ast.NewIdent(iv)}}, Tok: token.ASSIGN, Rhs: []ast.Expr{z}}}}}
 									out = append(out, loop)
 									in.counts["clear(slice) → element loop"]++
 									changed = true
@@ -253,4 +288,209 @@ func (in *inliner) expandFile(f *ast.File) bool {
 		*lp = out
 	}
 	return changed
+}
+
+// promoteLocalCopies: a local that only caches a slice field between two statements of one list,
+//
+//	v := x.F; …(only v is used, x.F is not mentioned, no calls but builtins/conversions)…; x.F = v
+//
+// is replaced by the field itself (the inverse of "extract a pure helper that takes and returns the
+// slice"). Nobody can observe x.F in between, so writing every intermediate value to it changes nothing.
+func (in *inliner) promoteLocalCopies(f *ast.File) bool {
+	info := in.pkg.TypesInfo
+	changed := false
+	var lists []*[]ast.Stmt
+	ast.Inspect(f, func(x ast.Node) bool {
+		switch s := x.(type) {
+		case *ast.BlockStmt:
+			lists = append(lists, &s.List)
+		case *ast.CaseClause:
+			lists = append(lists, &s.Body)
+		}
+		return true
+	})
+	isPath := func(e ast.Expr) bool {
+		ok := true
+		n := 0
+		ast.Inspect(e, func(x ast.Node) bool {
+			switch x.(type) {
+			case *ast.Ident:
+			case *ast.SelectorExpr:
+				n++
+			case nil:
+			default:
+				ok = false
+			}
+			return true
+		})
+		return ok && n > 0
+	}
+	for _, lp := range lists {
+		list := *lp
+	scan:
+		for i, st := range list {
+			as, ok := st.(*ast.AssignStmt)
+			if !ok || as.Tok != token.DEFINE || len(as.Lhs) != len(as.Rhs) {
+				continue
+			}
+			for j := range as.Lhs {
+				v, ok := as.Lhs[j].(*ast.Ident)
+				if !ok || v.Name == "_" || !isPath(as.Rhs[j]) {
+					continue
+				}
+				if _, isSl := info.TypeOf(as.Rhs[j]).Underlying().(*types.Slice); !isSl {
+					continue
+				}
+				vobj := info.Defs[v]
+				if vobj == nil {
+					continue
+				}
+				path := types.ExprString(as.Rhs[j])
+				// the write-back
+				k := -1
+				wholeCopy := false
+				for m := i + 1; m < len(list); m++ {
+					if wb, ok := list[m].(*ast.AssignStmt); ok && wb.Tok == token.ASSIGN && len(wb.Lhs) == 1 && len(wb.Rhs) == 1 && types.ExprString(wb.Lhs[0]) == path {
+						// x.F = v   or   x.F = append(v, …): the field takes over from here
+						uses := false
+						ast.Inspect(wb.Rhs[0], func(n ast.Node) bool {
+							if id, ok := n.(*ast.Ident); ok && info.Uses[id] == vobj {
+								uses = true
+							}
+							return true
+						})
+						if uses {
+							k = m
+							wholeCopy = false
+							if id, ok := wb.Rhs[0].(*ast.Ident); ok && info.Uses[id] == vobj {
+								wholeCopy = true
+							}
+						}
+						break
+					}
+				}
+				if k < 0 {
+					continue
+				}
+				// between: no mention of the path, no calls except builtins / conversions, no &v
+				bad := false
+				check := func(n ast.Node) bool {
+					switch x := n.(type) {
+					case *ast.SelectorExpr:
+						if types.ExprString(x) == path {
+							bad = true
+						}
+					case *ast.CallExpr:
+						if tv, has := info.Types[x.Fun]; has && tv.IsType() {
+							return true
+						}
+						if id, isId := x.Fun.(*ast.Ident); isId {
+							if _, isB := info.Uses[id].(*types.Builtin); isB {
+								return true
+							}
+						}
+						// pure helpers of the package that read memory only through their arguments
+						bad = true
+					case *ast.UnaryExpr:
+						if x.Op == token.AND {
+							bad = true
+						}
+					case *ast.FuncLit, *ast.GoStmt, *ast.DeferStmt:
+						bad = true
+					case *ast.BranchStmt:
+						if x.Tok == token.GOTO {
+							bad = true // could leave the region without the write-back
+						}
+					case *ast.ReturnStmt:
+						bad = true
+					}
+					return true
+				}
+				for m := i + 1; m < k; m++ {
+					ast.Inspect(list[m], check)
+				}
+				if !wholeCopy {
+					// the right-hand side of the write-back is part of the region (the path must not occur in it)
+					ast.Inspect(list[k].(*ast.AssignStmt).Rhs[0], check)
+				}
+				// the other right-hand sides of the defining statement are evaluated before: fine; after the
+				// write-back the local must be dead
+				for m := k + 1; m < len(list); m++ {
+					ast.Inspect(list[m], func(n ast.Node) bool {
+						if id, ok := n.(*ast.Ident); ok && info.Uses[id] == vobj {
+							bad = true
+						}
+						return true
+					})
+				}
+				if bad {
+					continue
+				}
+				// replace
+				repl := as.Rhs[j]
+				for m := i + 1; m < k; m++ {
+					replaceIdent(list[m], info, vobj, repl)
+				}
+				var out []ast.Stmt
+				out = append(out, list[:i]...)
+				if len(as.Lhs) > 1 {
+					as.Lhs = append(append([]ast.Expr{}, as.Lhs[:j]...), as.Lhs[j+1:]...)
+					as.Rhs = append(append([]ast.Expr{}, as.Rhs[:j]...), as.Rhs[j+1:]...)
+					out = append(out, as)
+				}
+				out = append(out, list[i+1:k]...)
+				if !wholeCopy {
+					wb := list[k].(*ast.AssignStmt)
+					replaceIdent(wb, info, vobj, repl)
+					out = append(out, wb)
+				}
+				out = append(out, list[k+1:]...)
+				*lp = out
+				changed = true
+				in.counts["local copy of a slice field → the field"]++
+				break scan // one per list and round
+			}
+		}
+	}
+	return changed
+}
+
+// replaceIdent substitutes a copy of repl for every use of obj below n.
+func replaceIdent(n ast.Node, info *types.Info, obj types.Object, repl ast.Expr) {
+	var fix func(ep *ast.Expr)
+	fix = func(ep *ast.Expr) {
+		if id, ok := (*ep).(*ast.Ident); ok && (info.Uses[id] == obj || info.Defs[id] == obj) {
+			back := map[*ast.Ident]*ast.Ident{}
+			*ep = deepCopy(reflect.ValueOf(repl), back).Interface().(ast.Expr)
+		}
+	}
+	ast.Inspect(n, func(x ast.Node) bool {
+		if x == nil {
+			return true
+		}
+		v := reflect.ValueOf(x)
+		if v.Kind() == reflect.Ptr {
+			v = v.Elem()
+		}
+		if v.Kind() != reflect.Struct {
+			return true
+		}
+		for i := 0; i < v.NumField(); i++ {
+			f := v.Field(i)
+			if !f.CanAddr() || !f.CanSet() {
+				continue
+			}
+			switch p := f.Addr().Interface().(type) {
+			case *ast.Expr:
+				if *p != nil {
+					fix(p)
+				}
+			case *[]ast.Expr:
+				for k := range *p {
+					fix(&(*p)[k])
+				}
+			}
+		}
+		return true
+	})
 }
